@@ -276,3 +276,8 @@ def run(db, ctx):
     r82(db, ctx)
     r83(db, ctx)
     r84(db, ctx)
+    # "never lose a hit": the scanner skips a whole block of 8-bit scores when the block maximum is below the byte threshold, so the
+    # maximum itself must not under-estimate any cell of the block (seed C08-5: the AVX2 kernel started from row 0 and never read the last row)
+    from . import C07
+    common.shared_rule(db, ctx, C07.block_maximum, 'R8.5', 'the block maximum that gates the 8-bit pre-filter is an upper bound of every cell of the block '
+                       '(AVX2 max kernel: identity, row range, lane coverage, final reduction; generic: argmax scan over all cells) — shared with R7.1 / R7.4', ['R7.1', 'R7.4'])
